@@ -304,8 +304,12 @@ def _setup():
 
 MUTANTS = [
     dict(name="writing_ended written although an exception is pending", file="strax/storage/common.py",
-         old='        exc_info = strax.formatted_exception()\n        if exc_info:\n            self.md["exception"] = exc_info',
-         new='        exc_info = None'),
+         old='        if exc_info and sys.exc_info()[1] is not self._outside_exception:\n            self.md["exception"] = exc_info\n        elif self.got_exception is not None:',
+         new='        if False:\n            pass\n        elif self.got_exception is not None:'),
+    dict(name="original F-C04b: pending futures polled twice", file="strax/storage/common.py", only="pool_race",
+         old="                    pending = [f for f in pending if f not in done]", new="                    pending = [f for f in pending if not f.done()]"),
+    dict(name="original F-C04c: folder without metadata still found", file="strax/storage/files.py",
+         old="        if exists and not self._has_metadata(dirname):", new="        if False:"),
     dict(name="data directory not written to _temp first", file="strax/storage/files.py",
          old='        self.tempdirname = dirname + "_temp"', new='        self.tempdirname = dirname'),
     dict(name="recorded exception ignored when looking for data", file="strax/storage/common.py",
